@@ -70,6 +70,7 @@ func (e *Engine) jump(fr *Frame, to int) {
 			e.done = true
 			e.outcome = "unwind"
 			e.res.InconcNotes["unwind:"+fr.fi.name]++
+			e.unwindFn = fr.fi.name
 			return
 		}
 	}
